@@ -260,6 +260,12 @@ def run(ctx):
     chk.extra["states"] = nstates
 
     # ---- loops -------------------------------------------------------------
+    # the exits of the data-driven loops are decided on the register-transfer reading of their control words: the code's
+    # pipeline does what the control signals of these words say (operands, ALU function - evaluated in every word, also
+    # one that stores nothing: its condition outputs feed the next address - and the write-back of the result)
+    ddw = g.data_driven_words(loop_bytes)
+    chk.floor("data-driven control words", len(ddw), 20)
+    pipeline.control_part(ctx, "loop-data-path", words=ddw, flags=False)
     seen_loop_names = set()
     for b, comps, res in all_cyclic:
         name = loop_bytes.get(b)
